@@ -13,8 +13,8 @@
 
 namespace {
 
-enum { K_SLEEP, K_RECV_PAIR, K_RECV_PULL, K_RECV_SUB, K_RECV_REP, K_RECV_BUS, K_SEND_PUSH, K_SEND_PAIR, K_RECV_REQCTX, K_DIAL, K_DEVICE, K_RECV_SURVEYOR, K_STREAM_RECV, K_STREAM_SEND, K_STREAM_ACCEPT, K_HTTP_TRANSACT, K_WS_DIAL, K_NKINDS };
-static const char *kKindName[] = {"sleep", "recv_pair", "recv_pull", "recv_sub", "recv_rep", "recv_bus", "send_push", "send_pair", "recv_reqctx", "dial", "device", "recv_surveyor", "stream_recv", "stream_send", "stream_accept", "http_transact", "ws_dial"};
+enum { K_SLEEP, K_RECV_PAIR, K_RECV_PULL, K_RECV_SUB, K_RECV_REP, K_RECV_BUS, K_SEND_PUSH, K_SEND_PAIR, K_RECV_REQCTX, K_DIAL, K_DEVICE, K_RECV_SURVEYOR, K_STREAM_RECV, K_STREAM_SEND, K_STREAM_ACCEPT, K_HTTP_TRANSACT, K_WS_DIAL, K_SEND_XREQ, K_NKINDS };
+static const char *kKindName[] = {"sleep", "recv_pair", "recv_pull", "recv_sub", "recv_rep", "recv_bus", "send_push", "send_pair", "recv_reqctx", "dial", "device", "recv_surveyor", "stream_recv", "stream_send", "stream_accept", "http_transact", "ws_dial", "send_xreq"};
 
 struct Mon {
 	nng_aio   *aio = nullptr;
@@ -57,6 +57,10 @@ struct Mon {
 	std::vector<nng_stream *> dialed;
 	int                hvariant = 0;
 	int                hwrites  = 0; // responses written by the raw server so far
+	// raw REQ send queue (nni_msgq): filler sends that occupy the pipe, the buffer and the head of the writers' queue
+	nng_aio           *fill[8] = {nullptr, nullptr, nullptr, nullptr, nullptr, nullptr, nullptr, nullptr};
+	bool               in_presleep = false;
+	bool               presleep = false; // the aio was used for a sleep that ran to its natural end first
 	bool               closer_present = false;
 	const char *fail_sig = nullptr;
 	char        fail_msg[300];
@@ -80,6 +84,10 @@ static void
 mon_cb(void *arg)
 {
 	Mon *M = (Mon *) arg;
+	if (M->in_presleep) { // the harness-internal sleep that precedes the monitored operation: only counted
+		M->callbacks++;
+		return;
+	}
 	if (M->stop_returned)
 		mon_fail(M, "C02:callback-after-stop", "%s: callback ran after nng_aio_stop/nng_aio_free/nng_aio_wait had returned", kKindName[M->kind]);
 	// (a callback for a re-submission may start on another task thread before the callback that re-submitted has
@@ -110,6 +118,10 @@ mon_cb(void *arg)
 		mon_fail(M, stale ? "C02:stale-expiry-hits-resubmission" : "C02:early-timeout", "%s: submission #%d timed out after %llu ms with a %d ms timeout", kKindName[M->kind],
 		    i + 1, (unsigned long long) (vs_now() - M->t_sub[i]), M->T);
 	}
+	// an operation without a timeout (infinite / socket default, which is infinite here) cannot time out - whatever the aio was used for before
+	if (rv == NNG_ETIMEDOUT && M->T == 0 && M->kind != K_RECV_SURVEYOR && M->kind != K_SLEEP && M->kind != K_DIAL && M->kind != K_WS_DIAL && M->kind != K_HTTP_TRANSACT)
+		mon_fail(M, "C02:timeout-without-timeout", "%s: completed with NNG_ETIMEDOUT after %llu ms although no timeout is configured%s", kKindName[M->kind],
+		    (unsigned long long) (vs_now() - M->t_sub[i < 8 ? i : 0]), M->presleep ? " (the aio was used for a sleep before)" : "");
 	// second operation on the same aio after an idle-time cancel/abort: the stale cancel must have no effect on it
 	if (M->phase2 && !M->harness_cancel && (rv == NNG_ECANCELED || rv == NNG_EINTERNAL))
 		mon_fail(M, "C02:stale-cancel-hits-next-operation", "%s: a cancel/abort issued while the aio was idle failed the next operation with %d", kKindName[M->kind], rv);
@@ -147,7 +159,7 @@ mon_cb(void *arg)
 		mon_fail(M, "C02:success-without-bytes", "%s completed with success and a count of 0", kKindName[M->kind]);
 	bool is_recv = M->kind == K_RECV_PAIR || M->kind == K_RECV_PULL || M->kind == K_RECV_SUB || M->kind == K_RECV_REP || M->kind == K_RECV_BUS || M->kind == K_RECV_REQCTX ||
 	    M->kind == K_RECV_SURVEYOR;
-	bool is_send = M->kind == K_SEND_PUSH || M->kind == K_SEND_PAIR;
+	bool is_send = M->kind == K_SEND_PUSH || M->kind == K_SEND_PAIR || M->kind == K_SEND_XREQ;
 	if (is_recv) {
 		nng_msg *m = nng_aio_get_msg(M->aio);
 		if (rv == 0) {
@@ -217,6 +229,13 @@ submit(Mon *M)
 		nng_http_transact(M->http, M->aio);
 		break;
 	case K_WS_DIAL: nng_stream_dialer_dial(M->wsd, M->aio); break;
+	case K_SEND_XREQ: {
+		nng_msg *m = h_msg(0x02000000u | (uint32_t) M->submissions, 4);
+		nng_msg_header_append_u32(m, 0x80000100u + (uint32_t) M->submissions);
+		nng_aio_set_msg(M->aio, m);
+		nng_socket_send(M->s, M->aio);
+		break;
+	}
 	}
 }
 
@@ -345,6 +364,15 @@ actor_main(void *arg)
 			}
 			break;
 		}
+		case K_SEND_XREQ: { // the peer drains what is queued
+			nng_msg *m;
+			for (int k = 0; k < 6; k++) {
+				if (nng_recvmsg(M->peer, &m, NNG_FLAG_NONBLOCK) == 0)
+					nng_msg_free(m);
+				vs_sleep(1);
+			}
+			break;
+		}
 		case K_SEND_PUSH:
 		case K_SEND_PAIR: { // a receiver shows up
 			nng_msg *m;
@@ -439,6 +467,47 @@ exec_c02(const vcase *vc)
 		break;
 	case K_SEND_PUSH: pairup(nng_push0_open, nng_pull0_open, vop_arg(o, 4, 0) != 0); break;
 	case K_SEND_PAIR: pairup(nng_pair0_open, nng_pair0_open, true); break;
+	case K_SEND_XREQ: {
+		// raw REQ with a one-slot send queue towards a raw REP that does not read: one request sits in the pipe, one in the
+		// queue, one writer waits; then the peer takes one message, which frees a slot without waking the waiting writer
+		H_OK(nng_req0_open_raw(&M.s));
+		H_OK(nng_rep0_open_raw(&M.peer));
+		H_OK(nng_socket_set_int(M.s, NNG_OPT_SENDBUF, 1));
+		H_OK(nng_socket_set_int(M.peer, NNG_OPT_RECVBUF, 1));
+		H_OK(nng_listen(M.s, url, NULL, 0));
+		H_OK(nng_dial(M.peer, url, NULL, 0));
+		vs_settle();
+		// (the peer absorbs two requests - its receive queue and its pipe -, this socket's pipe one, its send queue one: from
+		// the fifth filler on, writers wait)
+		int nfill = 3 + (int) (vop_arg(o, 4, 0) % 6); // 3..8 fillers
+		for (int k = 0; k < nfill && k < 8; k++) {
+			H_OK(nng_aio_alloc(&M.fill[k], NULL, NULL));
+			nng_msg *m = h_msg(0x04000000u | (uint32_t) k, 4);
+			nng_msg_header_append_u32(m, 0x80000001u + (uint32_t) k);
+			nng_aio_set_msg(M.fill[k], m);
+			nng_socket_send(M.s, M.fill[k]);
+			vs_settle();
+		}
+		int waiting = 0;
+		for (int k = 0; k < 8; k++)
+			if (M.fill[k] && nng_aio_busy(M.fill[k]))
+				waiting++;
+		if (waiting >= 1 && vop_arg(o, 5, 0) % 4 != 0) {
+			// the peer takes 1..3 messages: each frees one slot somewhere along the path
+			for (int q = 0; q < (int) (vop_arg(o, 5, 0) % 4); q++) {
+				nng_msg *m;
+				if (nng_recvmsg(M.peer, &m, NNG_FLAG_NONBLOCK) == 0)
+					nng_msg_free(m);
+				vs_settle();
+			}
+			int still = 0;
+			for (int k = 0; k < 8; k++)
+				if (M.fill[k] && nng_aio_busy(M.fill[k]))
+					still++;
+			vr_tagf("xreq_writers_waiting_%d", still > 2 ? 2 : still);
+		}
+		break;
+	}
 	case K_RECV_REQCTX:
 		pairup(nng_req0_open, nng_rep0_open, true);
 		H_OK(nng_ctx_open(&M.ctx, M.s));
@@ -580,6 +649,28 @@ exec_c02(const vcase *vc)
 		if (nng_sendmsg(M.s, m, 0) != 0)
 			nng_msg_free(m);
 	}
+	for (int i = 2; i < vc->nops; i++)
+		if (strcmp(vc->ops[i].name, "presleep") == 0 && M.kind != K_SLEEP) {
+			// the monitored aio first serves a sleep that runs to its natural end (harness-internal: not counted as a submission)
+			int      ms = (int) vop_arg(&vc->ops[i], 0, 3);
+			nng_aio *sa;
+			(void) sa;
+			M.stop_returned = false;
+			int cb0 = M.callbacks, sub0 = M.submissions;
+			M.submissions++; // the callback counter will see one completion
+			M.in_presleep = true;
+			nng_sleep_aio(ms > 0 && ms < 50 ? ms : 3, M.aio);
+			nng_aio_wait(M.aio);
+			vs_settle();
+			M.in_presleep = false;
+			if (M.callbacks != cb0 + 1 || nng_aio_result(M.aio) != 0)
+				vr_fail("C02:presleep", "a plain sleep on the aio completed %d time(s) with %d", M.callbacks - cb0, nng_aio_result(M.aio));
+			M.callbacks   = cb0;
+			M.submissions = sub0;
+			M.presleep    = true;
+			vr_tag("aio_reused_after_sleep");
+			break;
+		}
 	switch (pre) {
 	case 1: nng_aio_set_timeout(M.aio, 0); M.T = -1; vr_tag("pre_zero_timeout"); break;
 	case 2: nng_aio_set_timeout(M.aio, T); M.T = T; vr_tag("pre_timeout"); break;
@@ -791,6 +882,17 @@ exec_c02(const vcase *vc)
 		if (M.have_raw)
 			rp_close(&M.raw);
 		free(M.bigbuf);
+	} else if (M.kind == K_SEND_XREQ) {
+		for (auto *fa : M.fill)
+			if (fa) {
+				nng_aio_cancel(fa);
+				nng_aio_wait(fa);
+				if (nng_aio_result(fa) != 0 && nng_aio_get_msg(fa))
+					nng_msg_free(nng_aio_get_msg(fa));
+				nng_aio_free(fa);
+			}
+		nng_socket_close(M.s);
+		nng_socket_close(M.peer);
 	} else if (M.kind == K_HTTP_TRANSACT) {
 		nng_http_close(M.http);
 		nng_http_client_free(M.hcli);
@@ -831,13 +933,15 @@ gen_c02()
 	t << "cfg " << *pbt::range<int>(1, 1000000) << " " << mode << " " << (mode == 3 ? *gen::element(5, 20, 50) : *gen::element(10, 30, 60)) << " " << *pbt::range<int>(0, 3) << " " << (mode == 3 ? *gen::element(60, 150, 400) : 300) << " 0\n";
 	int T = *gen::element(1, 5, 20, 50);
 	t << "op " << *pbt::range<int>(0, K_NKINDS - 1) << " " << *pbt::welem<int>({{4, 0}, {1, 1}, {4, 2}, {1, 3}}) << " " << T << " " << *pbt::welem<int>({{5, 0}, {2, 1}, {1, 2}, {1, 3}}) << " "
-	  << *pbt::range<int>(0, 5) << "\n";
+	  << *pbt::range<int>(0, 5) << " " << *pbt::range<int>(0, 3) << "\n";
 	int na = *pbt::range<int>(1, 4);
 	for (int i = 0; i < na; i++) {
 		int what = *pbt::welem<int>({{5, 0}, {4, 1}, {2, 2}, {4, 3}, {2, 4}, {4, 5}, {1, 6}});
 		int at   = *gen::weightedOneOf<int>({{5, gen::element(0, 1, T - 1 > 0 ? T - 1 : 0, T, T + 1)}, {1, pbt::range<int>(0, 60)}});
 		t << "actor " << what << " " << at << "\n";
 	}
+	if (*pbt::welem<int>({{4, 0}, {1, 1}}))
+		t << "presleep " << *gen::element(1, 3, 10) << "\n";
 	if (*pbt::welem<int>({{3, 0}, {1, 1}}))
 		t << "again " << *pbt::welem<int>({{1, 0}, {2, 1}, {2, 2}}) << "\n";
 	if (*pbt::welem<int>({{7, 0}, {1, 1}}))
